@@ -109,8 +109,18 @@ def case(item):
     states = oracle.all_states(n, outliers=True)
     s = states[si]
     op = {"none": 0.0, "tiny": 1e-4, "big": 0.3, "het": 0.3, "het0": 0.3}[op_mode]
-    data = oracle.make_data(n, dims=(2 if kind == "generic2" else 1), grid=3, kind=("generic" if kind == "generic2" else kind), seed=seed,
+    data = oracle.make_data(n, dims=(2 if kind in ("generic2", "apart2") else 1), grid=3, kind=("generic" if kind in ("generic2", "apart2") else kind), seed=seed,
                             outlier_prob=op, het=("zeros" if op_mode == "het0" else op_mode == "het"))
+    if kind == "apart2":
+        # two samples of very different informativeness: the second sample's likelihoods lie ~1500 log units below the first's
+        from phyclone.data.base import DataPoint
+
+        shifted = []
+        for d_ in data:
+            v = d_.value.copy()
+            v[1, :] -= 1500.0 + 40.0 * d_.idx
+            shifted.append(DataPoint(d_.idx, v, outlier_prob=d_.outlier_prob, outlier_prob_not=d_.outlier_prob_not))  # derived fields are computed at construction
+        data = shifted
     res = {"item": item, "problems": [], "evals": 0, "worst": 0.0, "hashes": None}
     try:
         vs = variants(s, data, n)
@@ -331,10 +341,10 @@ def main(tier, seed):
     for n in (1, 2, 3, 4):
         ns = len(oracle.all_states(n, outliers=True))
         for si in range(ns):
-            kinds = ["generic", "flat", "peaked", "seeded", "generic2"]
+            kinds = ["generic", "flat", "peaked", "seeded", "generic2", "apart2"]
             ops = ["none", "tiny", "big", "het", "het0"]
             if n == 4 and tier == "quick":
-                combos = [(kinds[si % 5], ops[si % 5]), (kinds[(si + 2) % 5], ops[(si + 1) % 5]), (kinds[(si + 3) % 5], "het0")]
+                combos = [(kinds[si % 6], ops[si % 5]), (kinds[(si + 2) % 6], ops[(si + 1) % 5]), (kinds[(si + 3) % 6], "het0")]
             else:
                 combos = [(k, o) for k in kinds for o in ops]
                 if tier == "quick":
